@@ -8,8 +8,13 @@ import (
 
 var (
 	refMu    sync.Mutex
-	refCache = map[*Program]map[*types.Func][]*types.Func{}
+	refCache = map[refKey]map[*types.Func][]*types.Func{}
 )
+
+type refKey struct {
+	p      *Program
+	inline bool
+}
 
 // FuncRefs returns every function object referenced (called or used as a
 // value) in the body of fn, in source order, de-duplicated. Closures count as
@@ -18,10 +23,11 @@ var (
 func (p *Program) FuncRefs(fn *types.Func) []*types.Func {
 	refMu.Lock()
 	defer refMu.Unlock()
-	m := refCache[p]
+	k := refKey{p, p.InlineMode}
+	m := refCache[k]
 	if m == nil {
 		m = map[*types.Func][]*types.Func{}
-		refCache[p] = m
+		refCache[k] = m
 	}
 	if r, ok := m[fn]; ok {
 		return r
